@@ -30,7 +30,7 @@ def _gen_op(rng, kind, cur, big):
     bs = [x for e in cur["entries"] for x in e[:-1]] or [lo, hi]
 
     def t():
-        return rng.choice(bs) + rng.choice([0, 0, 0, -1, 1]) if rng.random() < 0.5 else rng.randint(lo - 3, hi + 3)
+        return rng.choice(bs) + rng.choice([0, 0, 0, -1, 1]) if rng.random() < 0.5 else rng.randint(min(lo, hi) - 3, max(lo, hi) + 3)   # (an implementation state with max < min must not stop the history: the oracle reports it)
     ops = ["crop", "erase", "space", "edit", "insert", "insert", "delete", "union", "append", "dejitter", "new", "construct", "construct"]
     if kind == "I":
         ops += ["difference", "intersection", "mergeLabels", "morph"]
@@ -43,7 +43,16 @@ def _gen_op(rng, kind, cur, big):
             a, b = b, a
         return {"op": op, "a": a, "b": b, "mode": rng.choice(list(tierops.CROP)), "rebase": rng.random() < 0.4}
     if op == "erase":
-        a, b = sorted((max(lo, min(hi, t())), max(lo, min(hi, t()))))
+        ra = t()
+        rb = t()
+        a, b = sorted((max(lo, min(hi, ra)), max(lo, min(hi, rb))))
+        if kind == "P" and (ra + rb) % 2 == 0:
+            # a region that reaches past the tier's own span (nothing forbids it): the shrunken span is then computed from
+            # an end beyond the tier's, and the result must still contain its points.  Decided from the two draws
+            # already made, so that the histories of the other cases are what they were before
+            a, b = sorted((ra, rb))
+            if b >= hi:
+                b += (ra + 2 * rb) % 7
         return {"op": op, "a": a, "b": b, "mode": rng.choice(list(tierops.ERASE)), "shrink": rng.random() < 0.5}
     if op == "space":
         return {"op": op, "s": max(lo, min(hi, t())), "d": rng.randint(1, 9), "mode": rng.choice(list(tierops.SPACE))}
